@@ -224,6 +224,12 @@ fn rand_hunk(r: &mut Rng, allow_empty_sides: bool) -> HunkSpec {
     for bi in 0..blocks {
         let mut d = r.below(3); let mut a = r.below(3);
         if d == 0 && a == 0 { if r.chance(1, 2) { d = 1 } else { a = 1 } }
+        if r.chance(1, 50) {
+            // a long block replaced by another long block without a line in common (a re-indented function)
+            let (bd, ba) = (40 + r.below(160), 40 + r.below(160));
+            for k in 0..bd { lines.push((b'-', format!("    statement_{}();\n", k).into_bytes())); }
+            for k in 0..ba { lines.push((b'+', format!("        statement_{}();\n", k).into_bytes())); }
+        }
         for _ in 0..d { lines.push((b'-', txt(r))); }
         for _ in 0..a { lines.push((b'+', txt(r))); }
         if bi + 1 < blocks { lines.push((b' ', txt(r))); }
